@@ -90,7 +90,7 @@ func (fx *FnExec) emit(st *State, fr *frame, kind, detail string, goal Term, pro
 	if fr != nil && fr.tag != "" {
 		name += "@" + fr.tag
 	}
-	o := &Obligation{Name: name, Kind: kind, Fn: shortFn(fx.fn), Props: props, Assumes: append([]Term(nil), st.pc...), Goal: goal, Path: st.pathString(), Src: src, fx: fx}
+	o := &Obligation{Name: name, Kind: kind, Fn: shortFn(fx.fn), Props: props, Assumes: append([]Term(nil), st.pc...), Hints: append([]Term(nil), st.hints...), Goal: goal, Path: st.pathString(), Src: src, fx: fx}
 	if kind == "ensures" && fr != nil && fr.parent == nil {
 		o.Results = fx.curResults
 	}
@@ -1426,6 +1426,8 @@ func (fx *FnExec) doSend(st *State, fr *frame, x *ssa.Send) {
 	c := st.val(x.Chan)
 	v := st.val(x.X)
 	name := fx.ord(fr.fn, x, "send")
+	// site assertions: arg0 is the value sent, arg1 the channel
+	fx.siteAsserts(st, fr, nil, &callArgs{terms: []Term{v, c}, vals: []ssa.Value{x.X, x.Chan}, lvs: []*LValue{nil, nil}}, x)
 	fx.emit(st, fr, "chan-open", name, "(not "+st.ghostLoad("chanclosed", "Bool", c)+")", nil, "")
 	fx.chanSendEffect(st, c, v, fx.sortOf(x.X.Type()), "true")
 	fx.chanMsgTransfer(st, fr, x.X.Type(), v, "true", true, x, c, x.Chan.Type())
